@@ -522,3 +522,140 @@ def lemma_address_bytes(data, offset):
 
 lemma('address_bytes_roundtrip', lemma_address_bytes, prop='C18', params=dict(data=Bytes, offset=Int),
       requires=lambda data, offset: [0 <= offset, offset + 6 <= len(data)], inline=['Address.*'])
+
+
+# ---------------------------------------------------------------------------
+# l2cap: basic frame (Core Vol 3 Part A 3.1 / 3.3.5 FCS), PSM field (4.2), configuration options (5)
+# ---------------------------------------------------------------------------
+from bumble import l2cap, utils  # noqa: E402
+from pyvc.contracts import NATIVE_UF, uf  # noqa: E402
+
+NATIVE_UF['crc_16'] = utils.crc_16
+contract(
+    'bumble.utils:crc_16',
+    key='bumble.utils:crc_16@pure',
+    params=dict(data=Bytes),
+    returns=Int,
+    ensures=lambda data, res: [res == uf('crc_16', data), 0 <= res, res <= 0xFFFF],
+    modifies=[],
+    trusted=True,
+    note='crc_16 is treated as a pure function of its argument with a 16-bit result (bitwise CRC loop not re-derived)',
+)
+
+
+def lemma_l2cap_pdu(cid, payload):
+    p = l2cap.L2CAP_PDU(cid, payload)
+    b = bytes(p)
+    assert len(b) == 4 + len(payload)
+    assert b[0] == len(payload) % 256 and b[1] == len(payload) // 256 and b[2] == cid % 256 and b[3] == cid // 256 and b[4:] == payload
+    assert b == p.to_bytes(with_fcs=False)
+    q = l2cap.L2CAP_PDU.from_bytes(b)
+    assert q.cid == cid and q.payload == payload
+    assert bytes(q) == b
+
+
+lemma('l2cap_pdu_roundtrip', lemma_l2cap_pdu, prop='C18', params=dict(cid=IntRange(0, 0xFFFF), payload=Bytes),
+      requires=lambda payload: len(payload) <= 0xFFFF, inline=['L2CAP_PDU.*'])
+
+
+def lemma_l2cap_pdu_fcs(cid, payload):
+    p = l2cap.L2CAP_PDU(cid, payload)
+    b = p.to_bytes(with_fcs=True)
+    n = len(payload) + 2  # the length field covers the FCS
+    assert len(b) == 4 + n and b[0] == n % 256 and b[1] == n // 256 and b[2] == cid % 256 and b[3] == cid // 256
+    assert b[4 : 4 + len(payload)] == payload
+    # the FCS is computed over header + payload and sent least significant octet first
+    fcs = uf('crc_16', b[: 4 + len(payload)])
+    assert b[4 + len(payload)] == fcs % 256 and b[5 + len(payload)] == fcs // 256
+    # the receiver sees a basic frame whose payload still carries the FCS; re-serialising it gives the same bytes
+    q = l2cap.L2CAP_PDU.from_bytes(b)
+    assert q.cid == cid and len(q.payload) == n and q.payload[: len(payload)] == payload
+    assert bytes(q) == b
+
+
+lemma('l2cap_pdu_fcs_roundtrip', lemma_l2cap_pdu_fcs, prop='C18', params=dict(cid=IntRange(0, 0xFFFF), payload=Bytes),
+      requires=lambda payload: len(payload) <= 0xFFFD, inline=['L2CAP_PDU.*'], uses=['bumble.utils:crc_16@pure'])
+
+
+def lemma_l2cap_pdu_bytes(b):
+    q = l2cap.L2CAP_PDU.from_bytes(b)
+    # (proof hints: field values, then the re-serialised header byte by byte, then the payload)
+    assert q.cid == b[2] + 256 * b[3] and q.payload == b[4:] and len(q.payload) == b[0] + 256 * b[1]
+    r = bytes(q)
+    assert len(r) == len(b)
+    assert r[0] == b[0] and r[1] == b[1] and r[2] == b[2] and r[3] == b[3]
+    assert r[:4] == b[:4]
+    assert r[4:] == b[4:]
+    assert r == b
+
+
+lemma('l2cap_pdu_bytes_roundtrip', lemma_l2cap_pdu_bytes, prop='C18', params=dict(b=Bytes),
+      # well-formed: the length field says how many bytes follow the 4-byte header
+      requires=lambda b: [len(b) >= 4, len(b) == 4 + at(b, 0) + 256 * at(b, 1)], inline=['L2CAP_PDU.*'])
+
+CR = l2cap.L2CAP_Connection_Request
+
+
+def psm_value(bs):
+    v = 0
+    for i in range(len(bs)):
+        v = v + bs[i] * (256 ** i)
+    return v
+
+
+def psm_well_formed(bs):
+    """Core Vol 3 Part A 4.2: every octet but the most significant one is odd, the most significant octet is even; the
+    encoding is minimal (at least 2 octets, no zero most significant octet beyond that)"""
+    n = len(bs)
+    return [at(bs, i) % 2 == 1 for i in range(n - 1)] + [at(bs, n - 1) % 2 == 0] + ([at(bs, n - 1) != 0] if n > 2 else [])
+
+
+def lemma_psm(bs, pre, post):
+    psm = psm_value(bs)
+    s = CR.serialize_psm(psm)
+    assert s == bs
+    data = pre + s + post
+    end, v = CR.parse_psm(data, len(pre))
+    assert end == len(pre) + len(bs) and v == psm
+    assert CR.serialize_psm(v) == data[len(pre) : end]
+
+
+for _n in (2, 3, 4):
+    lemma(f'l2cap_psm_roundtrip_{_n}_octets', lemma_psm, prop='C18', params=dict(bs=BytesN(_n), pre=BytesN(3), post=Bytes),
+          requires=lambda bs: psm_well_formed(bs), inline=['L2CAP_Connection_Request.*'],
+          **({'bounded': f'PSM field of {_n} octets (stand-in for fields longer than the 2 octets every assigned PSM has)'} if _n > 2 else {}),
+          note='PSM fields of 2, 3 and 4 octets (the specification allows longer ones; every PSM assigned so far has 2): the loops '
+               'of parse_psm / serialize_psm are unrolled because their tests are decided by the well-formedness of the octets')
+
+CF = l2cap.L2CAP_Control_Frame
+
+contract(
+    'bumble.l2cap:L2CAP_Control_Frame.decode_configuration_options',
+    prop='C18',
+    params=dict(data=Bytes),
+    # arbitrary bytes (truncated option, length pointing past the end, odd trailing byte): terminates, raises nothing
+    ensures=lambda data, res: [implies(len(data) < 2, len(res) == 0), 2 * len(res) <= len(data)],
+    ensures_names=['nothing-from-less-than-two-bytes', 'at-least-two-bytes-per-option'],
+    returns=ListOf(TupleOf(Int, Bytes)),
+    modifies=[],
+    invariants={0: lambda data, old, options: [2 * len(options) + len(data) <= len(old.data)]},
+    decreases={0: lambda data: len(data)},
+    loop_locals={0: {'options': ListOf(TupleOf(Int, Bytes))}},
+)
+
+
+def lemma_options(options):
+    b = CF.encode_configuration_options(options)
+    d = CF.decode_configuration_options(b)
+    assert d == options
+    assert CF.encode_configuration_options(d) == b
+
+
+for _n in range(0, 4):
+    lemma(f'l2cap_configuration_options_roundtrip_{_n}_bounded', lemma_options, prop='C18',
+          params=dict(options=ConcList(TupleOf(IntRange(0, 255), Bytes), _n)),
+          requires=lambda options: [len(x[1]) <= 255 for x in options],
+          inline=['L2CAP_Control_Frame.*'],
+          bounded=f'{_n} options',
+          note=f'bounded: option lists of length {_n} (every type code and value length 0..255 symbolic); termination and absence of '
+               'exceptions of the decoder on arbitrary bytes are in the contract of decode_configuration_options')
